@@ -280,6 +280,12 @@ func (e *Ex) expr(v ssa.Value, d int) string {
 		}
 		return x.Op.String() + e.expr(x.X, d+1)
 	case *ssa.FieldAddr:
+		// field of a local struct variable that holds exactly one whole value (e.g. a by-value parameter spilled to a cell)
+		if a, ok := x.X.(*ssa.Alloc); ok {
+			if stores, ok2 := cellStores(a); ok2 && len(stores) == 1 {
+				return e.expr(stores[0].Val, d+1) + "." + fieldName(x.X.Type(), x.Field)
+			}
+		}
 		return e.expr(x.X, d+1) + "." + fieldName(x.X.Type(), x.Field)
 	case *ssa.Field:
 		return e.expr(x.X, d+1) + "." + fieldName(x.X.Type(), x.Field)
